@@ -530,6 +530,55 @@ fn run_frozen_loaded(defs_src: &str, globals: &starlark::environment::Globals) -
     })
 }
 
+/// A: `defs_src` (defines make()); B: `main = make()`, frozen; C: loads main from B and calls it.
+fn run_factory(a_src: &str, globals: &starlark::environment::Globals) -> Option<run::Outcome> {
+    use starlark::environment::Module;
+    use starlark::eval::Evaluator;
+    use starlark::eval::ReturnFileLoader;
+    use starlark::syntax::AstModule;
+    run::OUT.with(|o| o.borrow_mut().clear());
+    let ast = AstModule::parse("prog.star", a_src.to_owned(), &run::dialect()).ok()?;
+    let a = Module::with_temp_heap(|module| {
+        {
+            let mut eval = Evaluator::new(&module);
+            eval.eval_module(ast, globals).ok()?;
+        }
+        module.freeze().ok()
+    })?;
+    let mut ta = std::collections::HashMap::new();
+    ta.insert("prog", &a);
+    let la = ReturnFileLoader { modules: &ta };
+    let ast_b = AstModule::parse("b.star", "load(\"prog\", \"make\")\nmain = make()\n".to_owned(), &run::dialect()).ok()?;
+    let b = Module::with_temp_heap(|module| {
+        {
+            let mut eval = Evaluator::new(&module);
+            eval.set_loader(&la);
+            eval.eval_module(ast_b, globals).ok()?;
+        }
+        module.freeze().ok()
+    })?;
+    if !run::OUT.with(|o| o.borrow().is_empty()) {
+        return None;
+    }
+    let mut tb = std::collections::HashMap::new();
+    tb.insert("b", &b);
+    let lb = ReturnFileLoader { modules: &tb };
+    let ast_c = AstModule::parse("c.star", "load(\"b\", \"main\")\nmain()\n".to_owned(), &run::dialect()).ok()?;
+    let r = Module::with_temp_heap(|module| {
+        let mut eval = Evaluator::new(&module);
+        eval.set_loader(&lb);
+        match eval.eval_module(ast_c, globals) {
+            Ok(_) => Ok(()),
+            Err(e) => Err(run::err_of(&e)),
+        }
+    });
+    let out = run::OUT.with(|o| std::mem::take(&mut *o.borrow_mut()));
+    Some(match r {
+        Ok(()) => run::Outcome { out, kind: String::new(), line: 0, msg: String::new(), parse_error: false },
+        Err((kind, line, msg)) => run::Outcome { out, kind, line, msg, parse_error: false },
+    })
+}
+
 /// vh record opt <out.ndjson> --seed S --n N --stmts K
 /// Per program three records (same id prefix): plain, opaque, frozen (wrapped programs only).
 pub fn record_opt(rest: &[String]) -> anyhow::Result<()> {
@@ -567,6 +616,34 @@ pub fn record_opt(rest: &[String]) -> anyhow::Result<()> {
         out.write(&rec_p)?;
         if !stat_o {
             out.write(&rec_o)?;
+        }
+        if wrap && !stat_o {
+            // "factory" execution: main is a closure DECLARED in module A (inside make()), INSTANTIATED while
+            // module B is evaluated (so it freezes with B) and CALLED from module C after B is frozen.
+            // Its body is the opaque body, which reads A's global KK.
+            let osrc = rec_o["src"].as_str().unwrap_or("");
+            let mut lines: Vec<&str> = osrc.lines().collect();
+            lines.pop(); // the `[main][0]()` call
+            let mut a2 = String::new();
+            a2.push_str(lines[0]);
+            a2.push_str("\ndef make():\n");
+            for l in &lines[1..] {
+                a2.push_str("    ");
+                a2.push_str(l);
+                a2.push('\n');
+            }
+            a2.push_str("    return main\n");
+            if let Ok(Some(o)) = util::catch(|| run_factory(&a2, &globals)) {
+                let mut rec = rec_o.clone();
+                rec["id"] = json!(format!("{}-factory", id));
+                rec["out"] = json!(o.out);
+                // body lines are shifted by the extra `def make():` line
+                let line = if o.line > 2 { o.line - 1 } else { o.line };
+                rec["err"] = json!({"kind": o.kind, "line": line});
+                rec["msg"] = json!(o.msg);
+                rec["src"] = json!(a2);
+                out.write(&rec)?;
+            }
         }
         if wrap {
             // module A = everything but the final `main()` call; lines are those of the plain print
@@ -618,13 +695,45 @@ pub fn replay_frozen(rest: &[String]) -> anyhow::Result<()> {
                 };
                 (module.freeze().map_err(|e| format!("{:?}", e)), e)
             });
-            let a_out = run::OUT.with(|o| std::mem::take(&mut *o.borrow_mut()));
-            let frozen = frozen?;
+            let mut a_out = run::OUT.with(|o| std::mem::take(&mut *o.borrow_mut()));
+            let frozen_a = frozen?;
+            let mut a_err = a_err;
+            let mut src_a = src_a;
+            // optional middle module: loads from A, is evaluated and frozen; importers then load from it
+            let has_mid = c["mid"].as_array().map(|x| !x.is_empty()).unwrap_or(false);
+            let frozen = if has_mid {
+                let mut mid = c["mid"].clone();
+                let body = print::module(&mut mid);
+                let names: Vec<String> = c["loaded_mid"].as_array().unwrap().iter().map(|x| x.as_str().unwrap().to_owned()).collect();
+                let src_b = format!("load(\"a\", {})\n{}", names.iter().map(|n| format!("\"{}\"", n)).collect::<Vec<_>>().join(", "), body);
+                let mut ta = std::collections::HashMap::new();
+                ta.insert("a", &frozen_a);
+                let la = ReturnFileLoader { modules: &ta };
+                let ast_b = AstModule::parse("mid.star", src_b.clone(), &run::dialect()).map_err(|e| format!("{}", e))?;
+                let (fb, eb) = Module::with_temp_heap(|module| {
+                    let e = {
+                        let mut eval = Evaluator::new(&module);
+                        eval.set_loader(&la);
+                        match eval.eval_module(ast_b, &globals) {
+                            Ok(_) => (String::new(), 0, String::new()),
+                            Err(e) => run::err_of(&e),
+                        }
+                    };
+                    (module.freeze().map_err(|e| format!("{:?}", e)), e)
+                });
+                a_out.extend(run::OUT.with(|o| std::mem::take(&mut *o.borrow_mut())));
+                a_err = eb;
+                src_a = format!("{}# --- mid module\n{}", src_a, src_b);
+                fb?
+            } else {
+                frozen_a
+            };
             let mut mods_res = Vec::new();
             let names: Vec<String> = c["loaded"].as_array().unwrap().iter().map(|x| x.as_str().unwrap().to_owned()).collect();
-            let load_line = format!("load(\"a\", {})\n", names.iter().map(|n| format!("\"{}\"", n)).collect::<Vec<_>>().join(", "));
+            let from = if has_mid { "mid" } else { "a" };
+            let load_line = format!("load(\"{}\", {})\n", from, names.iter().map(|n| format!("\"{}\"", n)).collect::<Vec<_>>().join(", "));
             let mut table = std::collections::HashMap::new();
-            table.insert("a", &frozen);
+            table.insert(from, &frozen);
             let loader = ReturnFileLoader { modules: &table };
             for m in c["mods"].as_array().unwrap() {
                 let mut chunks: Vec<J> = m.as_array().cloned().unwrap_or_default();
